@@ -101,6 +101,13 @@ func (runInfo *runInfoStruct) invokeLetMemberExpr(expr *ast.MemberExpr) {
 
 	// Map
 	case reflect.Map:
+		var key reflect.Value
+		key, runInfo.err = convertReflectValueToType(reflect.ValueOf(expr.Name), runInfo.rv.Type().Key())
+		if runInfo.err != nil {
+			runInfo.err = newStringError(expr, "index type string cannot be used for map index type "+runInfo.rv.Type().Key().String())
+			runInfo.rv = nilValue
+			return
+		}
 		value, runInfo.err = convertReflectValueToType(value, runInfo.rv.Type().Elem())
 		if runInfo.err != nil {
 			runInfo.err = newStringError(expr, "type "+value.Type().String()+" cannot be assigned to type "+runInfo.rv.Type().Elem().String()+" for map")
@@ -110,15 +117,15 @@ func (runInfo *runInfoStruct) invokeLetMemberExpr(expr *ast.MemberExpr) {
 		if runInfo.rv.IsNil() {
 			// make new map
 			item := reflect.MakeMap(runInfo.rv.Type())
-			item.SetMapIndex(reflect.ValueOf(expr.Name), value)
+			item.SetMapIndex(key, value)
 			// assign new map
 			runInfo.rv = item
 			runInfo.expr = expr.Expr
 			runInfo.invokeLetExpr()
-			runInfo.rv = item.MapIndex(reflect.ValueOf(expr.Name))
+			runInfo.rv = item.MapIndex(key)
 			return
 		}
-		runInfo.rv.SetMapIndex(reflect.ValueOf(expr.Name), value)
+		runInfo.rv.SetMapIndex(key, value)
 
 	default:
 		runInfo.err = newStringError(expr, "type "+runInfo.rv.Kind().String()+" does not support member operation")
